@@ -124,7 +124,46 @@ func renamings(r *rand.Rand, ids []string) []map[string]string {
 	out = append(out, m)
 	// 6. names whose concatenations collide ("a"+"ab" == "aa"+"b"): catches keys built by gluing two ids together
 	out = append(out, ambiguousNames(r, ids))
+	// 7. look-alikes: distinct strings that coincide after a "harmless" normalisation (numeric value, surrounding blanks,
+	// letter case, unicode composition): catches lookups that parse, trim or fold the ids
+	out = append(out, lookAlikeNames(r, ids))
 	return out
+}
+
+// lookAlikeNames maps ids injectively to strings drawn from small classes of look-alikes, so that several nodes of one
+// graph (and, with a partial size map, a listed and an unlisted node) differ only by such a normalisation.
+func lookAlikeNames(r *rand.Rand, ids []string) map[string]string {
+	var classes [][]string
+	for k := 0; k < 6; k++ {
+		n := r.Intn(20)
+		classes = append(classes, []string{fmt.Sprintf("%d", n), fmt.Sprintf("0%d", n), fmt.Sprintf("+%d", n), fmt.Sprintf("00%d", n), fmt.Sprintf("%d.0", n), fmt.Sprintf("-%d", n)})
+		w := fmt.Sprintf("w%c", 'a'+r.Intn(26))
+		classes = append(classes, []string{w, w + " ", " " + w, w + "\n", "\t" + w, w + "\r\n", " " + w + " "})
+		c := fmt.Sprintf("Node%c", 'a'+r.Intn(26))
+		classes = append(classes, []string{c, strings.ToLower(c), strings.ToUpper(c), c + "_", c + "/", "./" + c})
+	}
+	classes = append(classes, []string{"\u00e9", "e\u0301", "E\u0301", "\u00c9"})
+	r.Shuffle(len(classes), func(i, j int) { classes[i], classes[j] = classes[j], classes[i] })
+	var pool []string
+	seen := map[string]bool{}
+	for _, cl := range classes {
+		r.Shuffle(len(cl), func(i, j int) { cl[i], cl[j] = cl[j], cl[i] })
+		for _, s := range cl[:2+r.Intn(len(cl)-1)] {
+			if !seen[s] {
+				seen[s] = true
+				pool = append(pool, s)
+			}
+		}
+	}
+	m := map[string]string{}
+	for i, p := range r.Perm(len(ids)) {
+		if i < len(pool) {
+			m[ids[p]] = pool[i]
+		} else {
+			m[ids[p]] = fmt.Sprintf("q%d", i)
+		}
+	}
+	return m
 }
 
 // ambiguousNames maps ids injectively to strings over {a,b} of length 1..4 (30 strings; more ids get a numeric suffix).
@@ -153,11 +192,12 @@ func ambiguousNames(r *rand.Rand, ids []string) map[string]string {
 
 func init() {
 	register(&Property{
-		ID:    "C08",
-		Title: "Node IDs are opaque",
-		Count: counts(4000, 50000),
-		Rule: "graphs with long edges (F9, F1, F3, F11) x all cells except greedy-random (network simplex positioner over-sampled) x 6 injective renamings per case: V1..Vk and NE0..NEk (the helper " +
-			"alphabets autog mints itself), a permutation of the same names, hostile strings (empty, 10 kB, unicode, control characters), mixed, strings over {a,b} whose concatenations collide; oracle: Layout(rename(G)) must equal " +
+		ID:     "C08",
+		Title:  "Node IDs are opaque",
+		Count:  counts(4000, 50000),
+		Budget: 240, // a case makes 11-25 calls (two base runs, 7 renamings, self-consistency runs); with the network simplex positioner on dense multigraphs that is 50 s of CPU alone
+		Rule: "graphs with long edges (F9, F1, F3, F11) x all cells except greedy-random (network simplex positioner over-sampled) x 7 injective renamings per case: V1..Vk and NE0..NEk (the helper " +
+			"alphabets autog mints itself), a permutation of the same names, hostile strings (empty, 10 kB, unicode, control characters), mixed, strings over {a,b} whose concatenations collide, look-alikes (numeric spellings of one value, surrounding blanks, letter case, unicode composition); oracle: Layout(rename(G)) must equal " +
 			"rename(Layout(G)) byte for byte, size-map keys renamed too; mismatches are charged only if both sides are self-consistent; " +
 			"non-trivial = the layout contains a helper node (long edge) or uses the network simplex positioner",
 		MinNontrivial: counts(1000, 12000),
@@ -210,7 +250,7 @@ func init() {
 				ropts := renameOpts(c.Opts, m)
 				got := core.Run(redges, ropts)
 				want := core.Canon(renameLayout(base.Layout, m))
-				kind := []string{"V-alphabet", "NE-alphabet", "permutation", "hostile-strings", "mixed", "ambiguous-concatenation"}[ri%6]
+				kind := []string{"V-alphabet", "NE-alphabet", "permutation", "hostile-strings", "mixed", "ambiguous-concatenation", "look-alikes"}[ri%7]
 				if got.Panic != nil {
 					if !selfConsistent(c.Edges, c.Opts, 4) {
 						return skipped("C07")
